@@ -114,8 +114,8 @@ def check_block(lines_sets, eol="\r\n", blank_every=0, ident=b"/ABC5xyz") -> lis
     ref = RP.exact_parse(text)
     assert ref == flat, (ref, flat)
     want = expected_decode(flat)
-    if not want:
-        return errs
+    if not flat:
+        return errs  # a block without any data set: nothing to decode
     try:
         d_content = dlde.decode_p1_readout_content(block)
     except Exception as ex:  # noqa: BLE001
@@ -207,16 +207,18 @@ def _work_shapes(task) -> core.Part:
     for line in lines:
         for eol in ("\r\n", "\n"):
             for blank in (0, 1):
-                ls = [[("0-0:1.0.0", [("210222161900W", None)])], line, [("1-0:72.7.0", [("230.4", "V")])]]
-                e = check_block(ls, eol, blank)
-                p.add("evaluations")
-                p.add("nontrivial")
-                p.out(f"sets_per_line={len(line)}")
-                if e:
-                    _rep(p, "shape", ls, e, eol, blank)
-                    if p.full("shape"):
-                        p.capped = True
-                        return p
+                # the line between two ordinary lines, and as the only line of the block (a block may consist of
+                # multi-valued data sets only: it decodes to an empty dictionary, identically through every entry point)
+                for ls in ([[("0-0:1.0.0", [("210222161900W", None)])], line, [("1-0:72.7.0", [("230.4", "V")])]], [line], [line, line[::-1]]):
+                    e = check_block(ls, eol, blank)
+                    p.add("evaluations")
+                    p.add("nontrivial")
+                    p.out(f"sets_per_line={len(line)}")
+                    if e:
+                        _rep(p, "shape", ls, e, eol, blank)
+                        if p.full("shape"):
+                            p.capped = True
+                            return p
     return p
 
 
